@@ -161,6 +161,14 @@ package model
 // BOS / EOS are added only on request, around (not instead of) the ids of the text
 //@   assert-at call append #8 : addSpecial && len(arg0) == 1 && arg0[0] == bpe.vocab.BOS && len(arg1) == len(ids)
 //@   assert-at call append #9 : addSpecial && len(arg1) == 1 && arg1[0] == bpe.vocab.EOS && len(arg0) == len(ids)
+// -- extension (after seeded change C20-seed4) -- the only reason to skip a fragment in the special-token split is
+// that it already carries ids. A skipped iteration has no site of its own and loop invariants are refused in this
+// function (it contains a range-over-func statement), so the skip test is pinned through the order of the len()
+// sites: the first length taken after `len(frag.ids)` is len(special) in `frag.value[i+len(special):]`, on the path
+// where the literal was found in THIS fragment - any further length test in the skip condition moves that site
+// (len sites in source order: #1 range over the special vocabulary, #2 loop condition, #3 len(frag.ids), #4 len(special))
+//@   assert-at call len #3 : arg0 == frag.ids && frag.value == fragments[i].value
+//@   assert-at call len #4 : arg0 == special && ghost_ix >= 0
 
 // ---- SentencePiece ----
 //@ func (SentencePieceModel).Encode$1
